@@ -273,9 +273,17 @@ impl S13 {
                 if applied > 0 {
                     // whatever the applied prefix recorded (its exactness, and that of
                     // Latest, is judged by `check_exact` below, not here)
-                    for (h, _) in &items[..applied] {
-                        mid.stored[*h as usize] = after.stored[*h as usize];
-                        mid.roots[*h as usize] = after.roots[*h as usize];
+                    for (k, (h, v)) in items[..applied].iter().enumerate() {
+                        if *h == hc {
+                            // the conflicting entry aims at a block stored by this very
+                            // batch: what must survive is that block and its exact root
+                            let upto = w.order.len() - applied + k + 1;
+                            mid.stored[*h as usize] = Some(self.ids[*h as usize][*v as usize]);
+                            mid.roots[*h as usize] = Some(self.ref_root(&w.order[..upto]));
+                        } else {
+                            mid.stored[*h as usize] = after.stored[*h as usize];
+                            mid.roots[*h as usize] = after.roots[*h as usize];
+                        }
                     }
                     mid.latest = after.latest;
                 }
@@ -306,15 +314,18 @@ impl Subject for S13 {
         Some(w.clone())
     }
 
-    fn enabled(&self, _w: &W13) -> Vec<Op13> {
+    fn enabled(&self, w: &W13) -> Vec<Op13> {
         let mut v = vec![];
+        // on an occupied height the *other* block comes first, so that the shortest
+        // witness of an overwrite shows a really different block
+        let variants = |h: u32| if w.stored.get(&h) == Some(&0) { [1u8, 0] } else { [0u8, 1] };
         for h in 0..self.heights {
-            for var in 0..2u8 {
+            for var in variants(h) {
                 v.push(Op13::Insert { h, v: var });
             }
         }
         for h in 0..self.heights {
-            for var in 0..2u8 {
+            for var in variants(h) {
                 v.push(Op13::Replace { h, v: var });
             }
         }
